@@ -1637,7 +1637,9 @@ class DocutilsRenderer(RendererProtocol):
         self.current_node.append(target)
 
     def render_myst_line_comment(self, token: SyntaxTreeNode) -> None:
-        self.current_node.append(nodes.comment(token.content, token.content.strip()))
+        comment = nodes.comment(token.content, token.content.strip())
+        self.add_line_and_source_path(comment, token)
+        self.current_node.append(comment)
 
     def render_myst_role(self, token: SyntaxTreeNode) -> None:
         name = token.meta["name"]
